@@ -111,6 +111,18 @@ def translate(ui_text, header_guard_include='"simclasses.h"'):
                 stmts.append('%s = new %s("%s");' % (name, c, name))
                 props(ch, name)
                 walk(ch)
+            elif ch.tag == "action":
+                # uic: QAction *name = new QAction(parent); <addaction name="separator"/> becomes addSeparator() and
+                # declares no member at all
+                name = ch.get("name")
+                used_names.add(name)
+                objects.append((name, "QAction"))
+                stmts.append('%s = new QAction("%s");' % (name, name))
+                for p in ch.findall("property"):
+                    child = list(p)[0] if len(p) else None
+                    e = value_expr(child, cls, unsupported) if child is not None and child.tag in ("bool", "string", "number") else None
+                    if e is not None:
+                        stmts.append("%s->set%s(%s);" % (name, cap(p.get("name")), e))
             elif ch.tag == "item":
                 walk(ch)
 
